@@ -135,7 +135,8 @@ CURATED = [
     ("leb-mix", [["a", ["leb", False], None], ["b", ["leb", True], None], ["c", U8, None]]),
     ("anon-struct", [["h", U8, None], [None, ANON, None], ["t", U32, None]]),
     ("union-member", [["h", U8, None], ["u", UNI, None], ["t", U16, None]]),
-    ("enum-arrays", [["e", E16, None], ["ea", arr(E16, 2), None], ["f", F8, None], ["fa", arr(F8, 2), None], ["t", U8, None]]),
+    ("enum-arrays", [["e", E16, None], ["ea", arr(E16, 2), None], ["f", F8, None], ["t", U8, None]]),
+    ("flag-array", [["fa", arr(F8, 2), None], ["t", U8, None]]),
     ("wide-ints", [["a", U128, None], ["b", I48, None], ["c", U24, None], ["d", I128, None]]),
     ("floats", [["a", ["float", "e"], None], ["b", ["float", "f"], None], ["c", ["float", "d"], None], ["d", arr(["float", "f"], 2), None]]),
     ("wchars", [["a", WCHAR, None], ["b", arr(WCHAR, 2), None], ["c", arr(WCHAR, None), None], ["t", U8, None]]),
@@ -147,7 +148,6 @@ CURATED = [
     ("nested-deep", [["a", U8, None], ["o", ["struct", "outer", [["i", INNER, None], ["z", arr(INNER2, 1), None]], False], None], ["t", U16, None]]),
     ("eof-tail", [["a", U8, None], ["d", arr(U16, "EOF"), None]]),
     ("eof-struct-tail", [["a", U8, None], ["d", arr(INNER, "EOF"), None]]),
-    ("ptr-array", [["a", U8, None], ["p", arr(["ptr", U8], 2), None], ["t", U8, None]]),
     ("struct-nullterm", [["s", arr(INNER, None), None], ["t", U8, None]]),
 ]
 
